@@ -71,6 +71,10 @@ var corpus = []pat{
 	{`(a|b)\1+c?`, oE, []string{"a", "b", "aa", "bb", "c", "ab"}, "ecma backreference"},
 	{`(?P<word>\w+)-(?P<num>\d+)`, oRE2, []string{"ab", "-", "12", "x-7", " ", "é"}, "re2 named"},
 	{`(?<a>x)|(?<b>y)`, oN | oRTL, []string{"x", "y", "xy", "z"}, "explicitcapture rtl"},
+	// literal prefixes with non-ASCII runes (Boyer-Moore tables beyond the ASCII page), also case-insensitive and right-to-left
+	{`日本語(\d+)`, 0, []string{"日本語", "日本語12", "日本", "12", "語", " ", "本語日本語7"}, "nonascii prefix"},
+	{`wörld-(\w+)`, oI, []string{"wörld-", "WÖRLD-x", "wor", "ld-", "é", " ", "world-"}, "nonascii prefix ignorecase"},
+	{`(ß+)\s?Ünïcödé`, oRTL, []string{"Ünïcödé", "ß", " ", "Unicode", "ï", "ßß Ünïcödé"}, "nonascii prefix rtl"},
 }
 
 // Catastrophic (pattern, input) families for timed operations.  Heavy at one
@@ -139,7 +143,27 @@ var quickTimed = []catFam{
 
 // Replacement strings: more than any per-Regexp cache size used.
 var repls = []string{"$2 $1", "<$0>", "${1}x", "$$", "[$&]", "$`|$'", "$+", "$_", "-", "$1$1", "q$2", "${c}", "\\$1", "a$0b$0", "$3",
-	"z", "", "${year}/${day}", "$10", "${open}", "é$1日", "$1-$2-$3", "${last}!", "<<$'>>", "x$0y$1z$2", "$0$0$0", "${0}", "$999", "$-", "${a}${3}"}
+	"z", "", "${year}/${day}", "$10", "${open}", "é$1日", "$1-$2-$3", "${last}!", "<<$'>>", "x$0y$1z$2", "$0$0$0", "${0}", "$999", "$-", "${a}${3}",
+	// these two do not parse ("capture group number out of range"): a failed call that must stay a failed call
+	"$99999999999999999999", "a${2147483648}"}
+
+// replHot is the handful of replacement strings one scenario keeps coming back to (cache hits, evictions and
+// re-insertions need repeats); set by the generators, empty means "draw from all".
+var replHot []int
+
+func pickRepl(r *rng) string {
+	if len(replHot) > 0 && r.chance(3, 5) {
+		return repls[replHot[r.n(len(replHot))]]
+	}
+	return repls[r.n(len(repls))]
+}
+
+func setReplHot(r *rng) {
+	replHot = replHot[:0]
+	for k := 2 + r.n(5); k > 0; k-- {
+		replHot = append(replHot, r.n(len(repls)))
+	}
+}
 
 // Units for long inputs; lengths cross the 1K/4K/16K rune-buffer classes and the 4K/16K byte-buffer classes.
 var longUnits = []string{"hello wörld ", "ab(c) ", "x", "日本", "a", "foo12 ", "aab", "1,234.5 ", "[[b]c]", "Hello World "}
